@@ -226,11 +226,15 @@ Why(C, X, e) ==
   LET n == e.n
       p == IF n >= 2 /\ n <= C.n THEN C.parent[n] ELSE Root
       pcause == X.cause[p]
-      byCause == CASE pcause = "critical" -> "parent-aborted-critical"
-                   [] pcause = "timeout" -> "parent-aborted-timeout"
-                   [] pcause = "success" -> "parent-aborted-success"
-                   [] pcause = "cancelled" -> "parent-aborted-cancelled"
-                   [] OTHER -> "parent-not-main"
+      \* n is, or lives under, a forever job / forever nested scheduler
+      RECURSIVE UnderForever(_)
+      UnderForever(x) == x >= 2 /\ x <= C.n /\ (C.forever[x] \/ UnderForever(C.parent[x]))
+      fsuffix == IF UnderForever(n) THEN "-under-forever" ELSE ""
+      byCause == (CASE pcause = "critical" -> "parent-aborted-critical"
+                    [] pcause = "timeout" -> "parent-aborted-timeout"
+                    [] pcause = "success" -> "parent-aborted-success"
+                    [] pcause = "cancelled" -> "parent-aborted-cancelled"
+                    [] OTHER -> "parent-not-main") \o fsuffix
   IN
   IF e.t # X.now THEN
        (IF e.k \in {"end", "raise", "start", "run-begin"} /\ e.t > X.now THEN "late-" \o e.k \o "-" \o byCause
